@@ -299,7 +299,7 @@ def case_os_reseed(r):
 def gen_drbgos(rng, tier, mult):
     q = tier == "quick"
     cases = []
-    for tag, n, fn in [("oi", 120 if q else 2400, case_os_inst), ("or", 24 if q else 400, case_os_reseed)]:
+    for tag, n, fn in [("oi", 120 if q else 1200, case_os_inst), ("or", 24 if q else 150, case_os_reseed)]:
         for ci in range(n * mult):
             cases.append(fn(rng.fork("%s%d" % (tag, ci))))
     return cases
@@ -360,8 +360,10 @@ def check(ctx):
     return vlib.standard_check(
         ctx, MODULES, components(ctx),
         assumptions=["HMAC_SHA256_Init/Update/Final/Buf compute RFC 2104 HMAC-SHA256 of the concatenated input (that is C01; exercised here at L1 on every run)",
-                     "entropy_read (util/entropy.c: /dev/urandom) is replaced by scripted answers; it either fills exactly the requested number of bytes or fails",
+                     "component drbg: entropy_read (util/entropy.c: /dev/urandom) is replaced by scripted answers; it either fills exactly the requested number of bytes or fails "
+                     "(a theorem about the model of util/entropy.c: os_entropy_exact / os_entropy_failure; components osent and drbgos run the real entropy_read over scripted open/read/close)",
+                     "every read(2) error on /dev/urandom, EINTR and EAGAIN included, fails the call (that is what util/entropy.c does; there is no retry)",
                      "RDRAND mixing (crypto_entropy_rdrand.c) is excluded by the property: harness built without CPUSUPPORT_X86_RDRAND",
                      "one process = one generator state (no fork/thread interaction modelled)"],
-        trusted=["pmodel (compiled Lean model)", "tools/extractors/c11.py (literals of crypto_entropy.c)", "harness/h_drbg.c",
+        trusted=["pmodel (compiled Lean model)", "tools/extractors/c11.py (literals of crypto_entropy.c)", "harness/h_drbg.c", "harness/h_osent.c", "harness/hfakeos.h (scripted open/read/close)",
                  "gcc -O1 + ASan/UBSan build of crypto_entropy.c, sha256.c (portable path, no CPU extensions)"])
